@@ -83,6 +83,12 @@ func (s *Server) Serve(listeners []net.Listener) error {
 		return ErrServerClosed
 	default:
 	}
+	// a Server serves once at a time: a second Serve would start every peer a
+	// second time and close doneServingCh twice
+	if s.serving {
+		s.mu.Unlock()
+		return errors.New("server is already serving")
+	}
 
 	// set serving state and enable peers
 	s.serving = true
